@@ -737,9 +737,11 @@ DUNDERS = ['__matmul__', '__rmatmul__', '__add__', '__radd__', '__sub__', '__mul
 
 
 def mv_tolerance(op: Any, x: Any, y: Any) -> float:
-    sizes = [np.dtype(l.dtype).itemsize for l in jax.tree.leaves(x) + jax.tree.leaves(y)] or [4]
+    sizes = [np.dtype(l.dtype).itemsize // (2 if np.dtype(l.dtype).kind == 'c' else 1) for l in jax.tree.leaves(x) + jax.tree.leaves(y)] or [4]
     name = type(op).__name__
     inexact = name in dense.TRIG or (name == 'SymmetricBandToeplitzOperator' and op.method in ('fft', 'overlap_save'))
+    if name == 'DiagonalInverseOperator':
+        sizes.append(np.dtype(op.operator._diagonal.dtype).itemsize)   # the reciprocal is taken in the precision of the stored values
     if name == 'SymmetricBandToeplitzOperator' and inexact:
         sizes.append(np.dtype(op.band_values.dtype).itemsize)      # the kernel is transformed in its own precision
     if min(sizes) >= 8:
@@ -765,7 +767,7 @@ def h_mvref(orig: Any, self: Any, x: Any) -> Any:
 
     def judge() -> None:
         exp = model(self, x)
-        got = [np.asarray(l, dtype=np.float64) for l in jax.tree.leaves(y)]
+        got = [refmodels._wide(l) for l in jax.tree.leaves(y)]
         LOG.evaluated(mon)
         LOG.count(f'{prop}.mv.class', name)
         if len(exp) != len(got) or any(e.shape != g.shape for e, g in zip(exp, got)):
